@@ -128,6 +128,12 @@ def h_raise(F, R):
         if len(roles) != len(s["payload"]):
             R.fail("H-raise", "payload-arity/%s/%s" % (v, s["f"]["root"]), "%s raised with %d payload values" % (v, len(s["payload"])), where=loc(s["node"]))
             continue
+        if s["f"]["root"].endswith("::from_u8") and v in set(x for x in CAT.FROM_U8_ERRORS.values() if x):
+            # the code tables are evaluated for all 256 bytes below: every rejected byte is reported with the documented variant
+            # carrying that very byte, however the table is written
+            n += len(roles)
+            R.ok("H-raise", "payload/%s/%s/table" % (v, s["f"]["root"]), "from_u8 table: payload decided by evaluation over all 256 bytes")
+            continue
         guards = _guard_exprs(F, s)
         if not guards and v in EVALUATED_PAYLOADS and not s["f"]["root"].endswith(("decode_async", "decode_with_protocol", "new_with", "decode")):
             # an unconditional constructor helper (`fn invalid(self) -> Error { Error::InvalidConnectFlags(self.0) }`): which value
